@@ -50,7 +50,8 @@ LINE_FIELDS = ('kind', 'w', 'n', 'wl', 'cl', 'fl', 'op', 'addr', 'rs', 'warn', '
 def slim(c):
     """what TLC gets: expected items as records, output lines as tuples (keeps the JSON small)"""
     d = {k: c[k] for k in TLC_FIELDS}
-    d['exp'] = [{k: it[k] for k in ITEM_FIELDS} for it in c['exp']]
+    d['exp'] = [{k: it[k] for k in ITEM_FIELDS} | {'tabs': [{'cols': t['cols'], 'minw': t['minw']} for t in it['tabs']]}
+                for it in c['exp']]
     d['out'] = [[l[k] for k in LINE_FIELDS] for l in c['out']]
     return d
 
@@ -84,6 +85,11 @@ def vacuity(cases, strict):
                     n[t + ':table'] += 1
                 if any(s[2] for s in it['st']):
                     n[t + ':nowrap'] += 1
+            # tables with cells that span rows / columns / both, transparent cells, header cells below the first row
+            place = 'reg' if it['name'] == 'regs' else 'ins' if it['t'] == 'G' else 'par'
+            for tb in it['tabs']:
+                for f in tb['features']:
+                    n['%s:%s-table-%s' % (t, place, f)] += 1
             # blocks behind register names and in instruction-level comments: place, kind, width class
             for cl in it['cls']:
                 parts = cl.split(':')
@@ -140,6 +146,8 @@ def vacuity(cases, strict):
     need += ['asm:reg-tab:' + k for k in wrapdrv.WCLS + ['exact', 'wrap']] + ['asm:ins-tab:' + k for k in wrapdrv.WCLS[:7]]
     need += ['asm:%s-table-%s' % (p, k) for p in ('reg', 'ins') for k in ('fits-exactly', 'fits', 'over-by-1', 'over')]
     need += ['asm:reg-table-in-band', 'asm:reg-table-in-band-warned']
+    need += ['%s:%s-table-%s' % (t, p, f) for t in ('asm', 'html') for p in ('par', 'reg', 'ins')
+             for f in ('span-row', 'span-col', 'span-both', 'transparent', 'header-below-first-row')]
     need += ['asm:table', 'html:table', 'skool:nowrap', 'asm:overlong-line', 'skool:overlong-line', 'asm:exactly-W',
              'skool:exactly-W', 'asm:warned', 'asm:table-line']
     missing = [k for k in need if not n[k]]
@@ -268,8 +276,14 @@ def run(tier):
                 'each width sees the band (a, t], a list or a plain description ending at / near a, and one instruction '
                 'comment with a table of width a-3..a+3 of the comment field or a tight list')
     rep.assumptions = ['html.parser tokenises the entry pages (trusted projection)',
-                       'tables are generated without colspan/rowspan and with at most one :w column; at most one block per '
-                       'register description / instruction comment; block macros as macro arguments and in titles are not generated',
+                       'tables: cells with =c<n>, =r<n>, both, =h (first row and elsewhere), =t in every place tables stand; spans stay '
+                       'inside the grid, every row has a cell of its own and every column a cell of colspan 1; =t never in the '
+                       'first column nor beside another =t cell; at most one :w column (narrowest width unknown, table-width '
+                       'not judged, if a spanning cell lies over it); at most one block per register description / instruction '
+                       'comment; block macros as macro arguments and in titles are not generated',
+                       'table cells are compared in groups: one group per horizontal extent (first column, colspan), groups '
+                       'ordered by (first column, colspan), cells of a group top to bottom in source order - read from character '
+                       'positions in the ASM output, from the HTML table model (colspan/rowspan attributes) in the pages',
                        'word tokens carry braces only at their ends; control files use one directive per paragraph (no dot directives)',
                        'a line is measured in characters; a tab indent counts 8 columns for the width rule, 1 for the warning']
     rmworkdir('c18')
